@@ -229,15 +229,31 @@ def _check_adder(ck: Checker, m: TransferModel, rule: str) -> None:
     for x, c in dest_adds:
         oe = next((k.value for k in c.keywords if k.arg == "on_error"), None)
         cb = None
+        self_map = {}  # `self.<attr>` inside a callable-class callback  ->  `<var>.<attr>` in the helper
         if isinstance(oe, ast.Name):
             ent = prog.lookup_name(adder, oe.id)
             if isinstance(ent, Func):
                 cb = ent
+            else:
+                # an instance of a small callable class:  on_error = _Collector(src)
+                ds = [d for d in scope_of(adder).get(oe.id) if d.kind in ("assign", "annassign") and isinstance(d.value, ast.Call) and isinstance(d.value.func, ast.Name)]
+                if len(ds) == 1:
+                    ci = adder.module.classes.get(ds[0].value.func.id)
+                    if ci is not None and "__call__" in ci.methods:
+                        cb = ci.methods["__call__"]
+                        self_map = {"self": oe.id}
         if cb is None:
             ck.fail(rule, adder, x, "destination add is called without an on_error callback that records failures; a failed upload would go unnoticed")
             continue
         gc_ = ck.cfg(cb)
-        rec = [n.id for n in gc_.nodes.values() for c2 in calls_at(n) if is_method_call(c2, "add", "update") and norm(c2.func.value) in rets]
+        def outer_name(e) -> str:
+            t = norm(e)
+            for k_, v_ in self_map.items():
+                if t == k_ or t.startswith(k_ + "."):
+                    return v_ + t[len(k_):]
+            return t
+
+        rec = [n.id for n in gc_.nodes.values() for c2 in calls_at(n) if is_method_call(c2, "add", "update") and outer_name(c2.func.value) in rets]
         reached = gc_.reach([gc_.entry], skip_node=lambda n: n.id in rec, skip_edge=lambda a, l, b: l == "exc")
         bad = gc_.exit in reached
         ck.require(bool(rec) and not bad, rule, cb, cb.node,
@@ -248,7 +264,7 @@ def _check_adder(ck: Checker, m: TransferModel, rule: str) -> None:
         # recorded value is built from the callback's oid parameter
         for n in gc_.nodes.values():
             for c2 in calls_at(n):
-                if is_method_call(c2, "add") and norm(c2.func.value) in rets and c2.args:
+                if is_method_call(c2, "add") and outer_name(c2.func.value) in rets and c2.args:
                     nm = names(c2.args[0])
                     okv = any(cb.has_param(p) for p in nm)
                     ck.require(okv, rule, cb, n, "recorded failure names the failing oid", "recorded failure is not derived from the failing oid")
@@ -270,7 +286,8 @@ def _check_adder(ck: Checker, m: TransferModel, rule: str) -> None:
                                f"the failure is recorded as `{norm(v)[:60]}`, not as HashInfo(<source>.hash_name, oid): when source and destination use different algorithm names (md5-dos2unix -> md5) the recorded id equals none of the requested ids, so objects that never arrived are reported as transferred",
                                construct=f"{norm(c2)[:60]} / identity")
     # the failure set returned is the one the callback fills, and adds happen for every fs group
-    ck.require(len(rets) == 1, rule, adder, adder.node, "helper returns one failure set", f"helper returns several different values: {sorted(rets)}", construct="returns")
+    nonempty = {r for r in rets if r not in ("set()", "frozenset()")}
+    ck.require(len(nonempty) == 1, rule, adder, adder.node, "helper returns one failure set (or a fresh empty set when there is nothing to do)", f"helper returns several different values: {sorted(rets)}", construct="returns")
 
 
 def _check_index(ck: Checker, m: TransferModel, success_edge) -> None:
